@@ -13,3 +13,25 @@ constexpr auto space_mask_good(int ch) noexcept -> bool
     return ch >= 0 and ch <= ' ' and ((mask >> ch) & 1ULL) != 0ULL;
 }
 } // namespace fixture
+
+// CHARCAST controls (analysis/rules/extra10.py)
+namespace fixture {
+template <typename A, typename B> inline constexpr bool is_same_v = __is_same(A, B);
+template <typename CharT>
+struct traits_bad {
+    using char_type = CharT;
+    static constexpr auto eq(char_type a, char_type b) noexcept -> bool { return static_cast<unsigned char>(a) == static_cast<unsigned char>(b); }
+};
+template <typename CharT>
+struct traits_good {
+    using char_type = CharT;
+    static constexpr auto lt(char_type a, char_type b) noexcept -> bool
+    {
+        if constexpr (is_same_v<char_type, char>) {
+            return static_cast<unsigned char>(a) < static_cast<unsigned char>(b);
+        } else {
+            return a < b;
+        }
+    }
+};
+} // namespace fixture
